@@ -2,6 +2,8 @@
 package router_address
 
 import (
+	"strings"
+
 	"github.com/go-i2p/logger"
 	"github.com/samber/oops"
 
@@ -130,6 +132,14 @@ func parseTransportOptions(ra *RouterAddress, routerData []byte) ([]byte, error)
 	ra.TransportOptions = transportOptions
 	if transportOptions == nil && len(errs) > 0 {
 		return remainder, oops.Errorf("error parsing RouterAddress options: %v", errs[0])
+	}
+	// data.NewMapping never returns a nil mapping, so the check above cannot fire. Every error
+	// other than the benign "more data follows the mapping" warning means the options were cut
+	// short or are malformed and the address must not be reported as successfully parsed.
+	for _, err := range errs {
+		if !strings.Contains(err.Error(), "data exists beyond length of mapping") {
+			return remainder, oops.Errorf("error parsing RouterAddress options: %v", err)
+		}
 	}
 	return remainder, nil
 }
